@@ -120,6 +120,7 @@ Applicable(c, r) ==
     [] c = "PlantedValid"    -> r.proutes # <<>> /\ r.cls \in FDCls /\ r.ign = <<>>
     [] c = "NoCrash"         -> TRUE
     [] c = "NoCrashPlain"    -> TRUE
+    [] c = "AcceptedWithoutError" -> TRUE
     [] OTHER -> FALSE
 
 ConsAsEdges(r, c) ==   \* a constraint of the record as a sequence of user-graph elements
@@ -182,6 +183,7 @@ Holds(c, r) ==
     [] c = "NoCrash"    -> /\ (r.ctor_exc = "none" \/ (r.ctor_exc = "ValueError" /\ r.documented_incompat = TRUE))
                            /\ (r.solve_exc = "none" \/ (r.solve_exc = "ValueError" /\ r.documented_incompat = TRUE))
                            /\ r.sol_exc \in {"none", "Exception"} /\ r.process_exit = FALSE /\ r.timeout = FALSE
+    [] c = "AcceptedWithoutError" -> r.ctor_exc = "none" /\ r.solve_exc = "none" /\ r.process_exit = FALSE
     [] c = "NoCrashPlain" -> /\ r.ctor_exc \in {"none", "ValueError"} /\ r.solve_exc \in {"none", "ValueError"}
                              /\ r.sol_exc \in {"none", "Exception"} /\ r.process_exit = FALSE
     [] OTHER -> TRUE
@@ -197,6 +199,7 @@ ClausesOf(p) ==
                      "ConstraintsHonoured", "ObjIsCount", "OneWeightPerRoute"}
     [] p = "C05" -> {"NoCrash"}
     [] p = "C11" -> {"NodesOfG", "EdgesOfG", "StartsOK", "EndsOK", "SimpleIfDAG", "NoCrashPlain"}
+    [] p = "C19" -> {"AcceptedWithoutError"}
     [] p = "C07" -> {"LAEErrors", "LAEObjective", "SelfCheckAccepts", "ExactlyK", "OneWeightPerRoute"}
     [] p = "C08" -> {"Succeeds", "MPEInequality", "MPEObjective", "OneSlackPerRoute", "OneWeightPerRoute", "NonNegative",
                      "NodesOfG", "EdgesOfG", "StartsOK", "EndsOK"}
